@@ -681,6 +681,71 @@ GLOBALS_OK = {'ESCAPES', '_OPERATORS', 'BARE_DISALLOWED', 'Token', 'None', 'True
               'str', 'len', 'bool', 'isinstance'}
 
 
+CENSUS_KEYS = ('class_data', 'foreign_reads', 'foreign_writes', 'foreign_globals', 'mutable_defaults', 'table_mutation', 'cached_options')
+
+
+def option_census(mod: ast.Module, cls: ast.ClassDef) -> list[str]:
+    """The seven options are public, documented, settable attributes, and the model takes the option vector as a parameter of
+    every call.  That is faithful only if every option the token functions consult is read from the public attribute AT CALL TIME
+    (that they read nothing but `self.<option>` is `foreign_reads`).  Listed here - every entry is a way in which a value derived
+    from an option can outlive the construction, or in which the attribute is not a plain attribute:
+
+    * `__init__` uses an option parameter for anything but `self.<same name> = <param>` / `= bool(<param>)` (a private attribute
+      derived from it, a branch on it, passing it on to another call), or reads `self.<option>` back;
+    * an option attribute is stored in `__init__` from something other than its own parameter, or never stored;
+    * the class (or a base class defined in this module) defines the option as a method / property / class attribute, or defines
+      `__setattr__` / `__getattr__` / `__getattribute__` / `__delattr__` (an option must be a plain instance attribute)."""
+    out: list[str] = []
+    init = next((f for f in cls.body if isinstance(f, ast.FunctionDef) and f.name == '__init__'), None)
+    if init is None:
+        return ['Tokenizer.__init__ not found']
+    params = {a.arg for a in init.args.args + init.args.kwonlyargs + init.args.posonlyargs}
+    ok_nodes: set[int] = set()
+    stored: dict[str, int] = {}
+    for st in ast.walk(init):
+        tg = st.targets[0] if isinstance(st, ast.Assign) and len(st.targets) == 1 else st.target if isinstance(st, ast.AnnAssign) and st.value is not None else None
+        if tg is None or not (isinstance(tg, ast.Attribute) and isinstance(tg.value, ast.Name) and tg.value.id == 'self' and tg.attr in OPTIONS):
+            continue
+        v = st.value
+        if isinstance(v, ast.Call) and isinstance(v.func, ast.Name) and v.func.id == 'bool' and len(v.args) == 1 and not v.keywords:
+            v = v.args[0]
+        stored[tg.attr] = stored.get(tg.attr, 0) + 1
+        if isinstance(v, ast.Name) and v.id == tg.attr and tg.attr in params:
+            ok_nodes.add(id(v))
+        else:
+            out.append(f'__init__:{st.lineno}: self.{tg.attr} is stored from `{ast.unparse(st.value)[:50]}`, not from its own parameter')
+    for o in OPTIONS:
+        if o not in params:
+            out.append(f'__init__: no parameter {o}')
+        if stored.get(o, 0) != 1:
+            out.append(f'__init__: self.{o} is assigned {stored.get(o, 0)} times')
+    ann = {id(y) for x in ast.walk(init) if isinstance(x, (ast.arg, ast.AnnAssign)) and x.annotation is not None for y in ast.walk(x.annotation)}
+    for x in ast.walk(init):
+        if id(x) in ann or id(x) in ok_nodes:
+            continue
+        if isinstance(x, ast.Name) and x.id in OPTIONS and isinstance(x.ctx, ast.Load):
+            out.append(f'__init__:{x.lineno}: option parameter {x.id} is used for something other than `self.{x.id} = {x.id}` '
+                       f'(a value derived from it at construction time does not follow the attribute)')
+        elif isinstance(x, ast.Attribute) and isinstance(x.value, ast.Name) and x.value.id == 'self' and x.attr in OPTIONS and isinstance(x.ctx, ast.Load):
+            out.append(f'__init__:{x.lineno}: self.{x.attr} is read back at construction time')
+    classes = {c.name: c for c in mod.body if isinstance(c, ast.ClassDef)}
+    todo, seen = [cls], set()
+    while todo:
+        c = todo.pop()
+        if c.name in seen:
+            continue
+        seen.add(c.name)
+        todo += [classes[b.id] for b in c.bases if isinstance(b, ast.Name) and b.id in classes]
+        for n in c.body:
+            if isinstance(n, (ast.FunctionDef, ast.AsyncFunctionDef)) and (n.name in OPTIONS or n.name in ('__setattr__', '__getattr__', '__getattribute__', '__delattr__')):
+                out.append(f'class {c.name}:{n.lineno}: defines {n.name} (an option must be a plain instance attribute)')
+            elif isinstance(n, ast.Assign) and any(isinstance(t, ast.Name) and t.id in OPTIONS for t in n.targets):
+                out.append(f'class {c.name}:{n.lineno}: {ast.unparse(n)[:50]} (an option must be a plain instance attribute)')
+            elif isinstance(n, ast.AnnAssign) and n.value is not None and isinstance(n.target, ast.Name) and n.target.id in OPTIONS:
+                out.append(f'class {c.name}:{n.lineno}: {ast.unparse(n)[:50]} (an option must be a plain instance attribute)')
+    return out
+
+
 def state_census(text: str) -> dict[str, list[str]]:
     """What the model assumes about state, read off the source: the three functions keep nothing between calls except
     `self.line_num` / `self._last_was_cr` (and the reader position, through `_next_char` / the one-character push-back).
@@ -698,7 +763,12 @@ def state_census(text: str) -> dict[str, list[str]]:
     cls = next((n for n in mod.body if isinstance(n, ast.ClassDef) and n.name == 'Tokenizer'), None)
     if cls is None:
         raise TranslateError('class Tokenizer not found')
-    out: dict[str, list[str]] = {k: [] for k in ('class_data', 'foreign_reads', 'foreign_writes', 'foreign_globals', 'mutable_defaults', 'table_mutation')}
+    out: dict[str, list[str]] = {k: [] for k in CENSUS_KEYS}
+    out['cached_options'] = option_census(mod, cls)
+    from translate.c02_tables import module_level_bindings
+    where = module_level_bindings(mod, 'Tokenizer')
+    if len(where) != 1:
+        out['class_data'].append(f'Tokenizer is bound {len(where)} times at module level (lines {where}): the class that is read is not necessarily the one callers get')
     methods = {f.name: f for f in cls.body if isinstance(f, (ast.FunctionDef, ast.AsyncFunctionDef))}
     for n in cls.body:
         if isinstance(n, ast.Assign):
@@ -840,7 +910,14 @@ def _show(t: tuple, depth: int = 0) -> list[str]:
 
 
 def translate() -> tuple[str, dict]:
-    trees = trees_of_source(src_text('tokenizer.py'))
+    """The trees AND the state census.  When the tree executor fails closed (statement outside its language) invalid trees are
+    written (side info `trees_failed_closed`), but the census - which needs no execution - is still produced, so that its named
+    obligations are evaluated for exactly the code the executor could not follow."""
+    try:
+        trees = trees_of_source(src_text('tokenizer.py'))
+    except TranslateError as e:
+        cen = state_census(src_text('tokenizer.py'))
+        return _empty(cen), {'state_census': cen, 'trees_failed_closed': str(e), 'segments': {}, 'leaves': 0}
     names = {0: 'gt_dispatch', 1: 'gt_brack', 2: 'gt_paren', 3: 'gt_directive', 4: 'gt_bare', 5: 'gt_star', 6: 'gt_line', 7: 'gt_cprefix'}
     lines = [
         '(* GENERATED by translate/c02_gettoken.py from /repo/src/srctools/tokenizer.py (Tokenizer._get_token, _handle_comment). Do not edit. *)',
@@ -856,8 +933,10 @@ def translate() -> tuple[str, dict]:
     cen = state_census(src_text('tokenizer.py'))
     lines.append('(* state census of _get_token / _handle_comment / _handle_string (texts as code points; every list must be empty): names bound to a')
     lines.append('   value in the body of class Tokenizer; self.<attr> read / written outside line_num, _last_was_cr, the options and the')
-    lines.append('   reader; module-level names read other than the constant tables; parameter defaults; mutations of the constant tables *)')
-    for k in ('class_data', 'foreign_reads', 'foreign_writes', 'foreign_globals', 'mutable_defaults', 'table_mutation'):
+    lines.append('   reader; module-level names read other than the constant tables; parameter defaults; mutations of the constant tables;')
+    lines.append('   st_cached_options: uses of an option in __init__ other than the store into the public attribute of the same name, options that')
+    lines.append('   are not plain instance attributes (see option_census) *)')
+    for k in CENSUS_KEYS:
         lines.append(f'Definition st_{k} : list (list N) := {_coq_strs(cen[k])}.')
     lines.append('')
     side = {'state_census': cen, 'segments': {ROLE_NAMES[r]: {'leaves': sum(1 for _ in _leaves(trees[r])), 'tree': _show(trees[r])} for r in range(8)},
@@ -865,13 +944,18 @@ def translate() -> tuple[str, dict]:
     return '\n'.join(lines), side
 
 
-def _empty() -> str:
+def _empty(cen: dict[str, list[str]] | None = None) -> str:
     names = ['gt_dispatch', 'gt_brack', 'gt_paren', 'gt_directive', 'gt_bare', 'gt_star', 'gt_line', 'gt_cprefix']
+    if cen is not None:
+        return ('(* GENERATED by translate/c02_gettoken.py: the tree executor FAILED CLOSED; invalid trees, real state census. *)\n'
+                'From Coq Require Import NArith List.\nFrom SV Require Import Text.GtTable.\nImport ListNotations.\nOpen Scope N_scope.\n'
+                + ''.join(f'Definition {n} : tree := Leaf (false, 0, 0, [], 9, 0, 0).\n' for n in names)
+                + ''.join(f'Definition st_{k} : list (list N) := {_coq_strs(cen[k])}.\n' for k in CENSUS_KEYS))
     return ('(* GENERATED by translate/c02_gettoken.py: the translator FAILED CLOSED; invalid trees. *)\n'
             'From Coq Require Import NArith List.\nFrom SV Require Import Text.GtTable.\nImport ListNotations.\nOpen Scope N_scope.\n'
             + ''.join(f'Definition {n} : tree := Leaf (false, 0, 0, [], 9, 0, 0).\n' for n in names)
             + ''.join(f'Definition st_{k} : list (list N) := [[63]].\n'
-                      for k in ('class_data', 'foreign_reads', 'foreign_writes', 'foreign_globals', 'mutable_defaults', 'table_mutation')))
+                      for k in CENSUS_KEYS))
 
 
 EMPTY_GEN = _empty()
